@@ -134,6 +134,9 @@ Definition qobs_eqb (a b : qobs) : bool :=
 
 (** ** the specification side *)
 
+Definition is_nil {A} (l : list A) : bool := match l with [] => true | _ => false end.
+
+
 (** index form: target / origin lead when requested and non-empty; each
     element's name is followed by its key values in key-name order; the
     deprecated [element] form is used only when there is no [elem]. *)
@@ -148,7 +151,6 @@ Definition spec_index (prefix : bool) (p : gpath) : list string :=
   | _ :: _ => List.concat (map spec_elem (gp_elems p))
   end.
 
-Definition is_nil {A} (l : list A) : bool := match l with [] => true | _ => false end.
 
 (** CompletePath: reject iff both origins are set, or the path has an origin
     and the prefix has elements; otherwise origin (whichever is set), prefix
@@ -192,7 +194,7 @@ Fixpoint tv_same (a b : tv) {struct a} : bool :=
   | TVDouble x, TVDouble y => N.eqb x y || (f64_is_zero x && f64_is_zero y)
   | TVFloat x, TVFloat y => N.eqb x y || (f32_is_zero x && f32_is_zero y)
   | TVLeaflist l, TVLeaflist l' => tvs_same tv_same l l'
-  | TVLeaflist [], TVLeaflistNil | TVLeaflistNil, TVLeaflist [] => true
+  | TVLeaflist l, TVLeaflistNil | TVLeaflistNil, TVLeaflist l => is_nil l
   | TVDecimal g p, TVDecimalNil | TVDecimalNil, TVDecimal g p => Z.eqb g 0 && N.eqb p 0
   | _, _ => tv_eqb a b
   end.
